@@ -44,8 +44,15 @@ def run_t1_stream(pid, st, model_ok):
         if st.oracle is not None:
             msg = st.oracle(i, line, impl[i])
             if msg:
-                if len(res["oracle"]) < 50:
-                    res["oracle"].append({"input": line, "impl": impl[i], "why": msg})
+                trig = []
+                if isinstance(msg, tuple):
+                    msg, trig = msg
+                # keep every distinct trigger set, cap the rest
+                key = tuple(trig)
+                cnt = res.setdefault("_trigcount", {})
+                cnt[key] = cnt.get(key, 0) + 1
+                if cnt[key] <= 25:
+                    res["oracle"].append({"input": line, "impl": impl[i], "why": msg, "triggers": trig})
                 else:
                     res["oracle_more"] = res.get("oracle_more", 0) + 1
         if st.nontrivial is None or st.nontrivial(i, line, impl[i]):
@@ -56,6 +63,7 @@ def run_t1_stream(pid, st, model_ok):
             if len(res["oracle"]) < 50:
                 res["oracle"].append({"input": st.lines[i] if i is not None else "", "impl": impl[i] if i is not None else "", "why": msg})
     res["nontrivial"] = len(seen)
+    res.pop("_trigcount", None)
     res["samples"] = [{"input": st.lines[i], "impl": impl[i]} for i in sorted(set([0, len(st.lines) // 2, len(st.lines) - 1]))]
     # shortest first: the replay should be minimal
     res["mismatch"].sort(key=lambda m: len(m["input"]))
@@ -103,6 +111,10 @@ def match_known(pid, item, known):
 def run_property(pid, tier, seed, mod):
     t0 = time.time()
     known = load_known_findings()
+    try:
+        os.remove(os.path.join(OUT, 'replay', '%s.%s.json' % (pid, tier)))
+    except OSError:
+        pass
     b = build_all(clean=False)
     notes = []
     proof_ok = True
